@@ -49,6 +49,7 @@ def run(ctx):
         ctx.exhaustive = True
     for i, c in enumerate(cases):
         c["id"] = i
+        c["kinds"] = (i + ctx.seed) % 4      # which kind of dependency each edge is declared as (deps / srcs / internal / run-time)
     obs = vlib.run_vh(ctx, "cycle", cases)
     for c in cases:
         o = obs.get(c["id"])
